@@ -37,7 +37,7 @@ def gen_field(rng, structs, depth):
     if c < 0.63:
         return ("ptr", rng.random() < 0.5)
     if c < 0.73:
-        return ("slice", rng.choice(["u8", "u16", "f64", "str8", "str16", "i32"]))
+        return ("slice", rng.choice(["u8", "u16", "f64", "str8", "str16", "i32", "DiplomatChar"]))
     if c < 0.85 and structs and depth < 2:
         return ("struct", rng.randrange(len(structs)))
     if c < 0.97:
@@ -65,7 +65,7 @@ def gen_structs(rng, n):
             rng.shuffle(fields)
             structs.append(fields)
         # a slice (two wasm scalars: pointer and length) next to one small scalar, in both orders, and the pair wrapped alone
-        sl = ("slice", rng.choice(["u8", "u16", "f64", "str8", "str16", "i32"]))
+        sl = ("slice", rng.choice(["u8", "u16", "f64", "str8", "str16", "i32", "DiplomatChar"]))
         structs.append([("prim", rng.choice(small)), sl])
         structs.append([sl, ("prim", rng.choice(small))])
         structs.append([("struct", len(structs) - rng.choice([1, 2]))])
@@ -167,7 +167,7 @@ def gen_value(rng, structs, f, ctx):
         n = rng.choice([0, 1, 3, 5])
         if f[1] == "f64":
             return [float(rng.randint(-50, 50)) / 4 for _ in range(n)]
-        return [rng.getrandbits({"u8": 8, "u16": 16, "i32": 31}[f[1]]) for _ in range(n)]
+        return [rng.getrandbits({"u8": 8, "u16": 16, "i32": 31, "DiplomatChar": 21}[f[1]]) for _ in range(n)]      # code points above 0xffff included
     if k == "struct":
         return [gen_value(rng, structs, g, ctx) for g in structs[f[1]]]
     if k == "opt":
@@ -587,7 +587,7 @@ def slice_paths(structs, k, layout, base=0, prefix=""):
     for i, f in enumerate(structs[k]):
         off = base + lay["fields"][i][0]
         if f[0] == "slice":
-            out.append((off, {"u8": 1, "u16": 2, "f64": 8, "i32": 4, "str8": 1, "str16": 2}[f[1]], prefix + "%d" % i, f))
+            out.append((off, {"u8": 1, "u16": 2, "f64": 8, "i32": 4, "str8": 1, "str16": 2, "DiplomatChar": 4}[f[1]], prefix + "%d" % i, f))
         elif f[0] == "struct":
             out += slice_paths(structs, f[1], layout, off, prefix + "%d." % i)
     return out
@@ -607,7 +607,7 @@ def slice_bytes(f, v):
         return v.encode("utf-16-le")
     if f[1] == "f64":
         return b"".join(st.pack("<d", x) for x in v)
-    w = {"u8": "B", "u16": "H", "i32": "i"}[f[1]]
+    w = {"u8": "B", "u16": "H", "i32": "i", "DiplomatChar": "I"}[f[1]]
     return b"".join(st.pack("<" + w, x) for x in v)
 
 
